@@ -43,8 +43,9 @@ import (
 // When the launcher pause is set, a successful Launch that took less than the pause means the hook is gone
 // (harness error "hook missing": the forced schedule is not achieved).
 //
-// More handler variants: exit / panic — the daemon dies before Done(): Launch must return an error and pid 0 (what the
-// code does: "daemon: exit status N" from the launcher's stderr), and the launches that FOLLOW it in this process must
+// More handler variants: exit / panic — the daemon dies before Done(): Launch must return an error in time and leave no
+// daemon running (what the code does: "daemon: exit status N" from the launcher's stderr; the value returned beside the
+// error is not judged), and the launches that FOLLOW it in this process must
 // be unaffected (a sequence of such launches and normal ones runs from one goroutine); unsetenv / clearenv — the
 // handler removes the ENV_DAEMON_* markers / its whole environment before Done(): Launch must still return nil and the
 // right pid in time. <done_nil>: Done() returned nil in the daemon (recorded in done.<pid>). Every scenario has its
@@ -670,7 +671,7 @@ func runC20(e *hk.Env) error {
 			return
 		}
 		if expectFail(g.sc.variant) {
-			// the daemon died before Done(): Launch must say so (an error, pid 0) and nothing of it may be running
+			// the daemon died before Done(): Launch must say so (an error, in time) and nothing of it may be running
 			left := groupPids(g.dir)
 			for i, o := range g.obs {
 				cases++
@@ -682,11 +683,12 @@ func runC20(e *hk.Env) error {
 					errText = o.err.Error()
 				}
 				e.Case("F", g.sc.variant, strconv.Itoa(g.sc.n), strconv.Itoa(i), o.class, strconv.Itoa(o.pid), strconv.Itoa(len(left)), hk.Hxs(errText))
-				if o.err == nil || o.pid != 0 || o.timedOut || len(left) > 0 {
+				// the value returned BESIDE the error is outside the property (its premise is a handler that reaches Done())
+				if o.err == nil || o.timedOut || len(left) > 0 {
 					viols++
 					e.Case("VIOL", "daemon_dies_before_done="+g.sc.variant, fmt.Sprintf("n=%d", g.sc.n), fmt.Sprintf("i=%d", i),
 						fmt.Sprintf("err=%q", errText), fmt.Sprintf("pid=%d", o.pid), fmt.Sprintf("daemons_running=%v", left),
-						"expected: an error and pid 0")
+						"expected: an error, Launch returning in time, no daemon left running")
 				}
 			}
 			killAndWait(append(groupPids(g.dir), childrenOf(self)...))
